@@ -3,10 +3,11 @@
 # usage: dev/seedtest.sh <patch.diff> <property id> [more ids...]
 set -e
 P=$(readlink -f "$1"); shift
+HERE=$(dirname "$(dirname "$(readlink -f "$0")")")   # the framework copy this script belongs to (a worktree or /verif)
 D=$(mktemp -d /tmp/seedrun.XXXXXX)
 rsync -a --exclude target --exclude .git /repo/ $D/
 (cd $D && patch -p1 -s < "$P") || { echo "PATCH DID NOT APPLY"; rm -rf $D; exit 3; }
-cd /verif
+cd "$HERE"
 for id in "$@"; do
   VERIF_OUT=$D/_out VERIF_REPO=$D ./check $id 2>&1 | grep -E "^(OK|VIOLATION|UNDECIDED|KNOWN)" | cut -c1-260
 done
